@@ -442,6 +442,10 @@ def run(ctx):
             bb_ += op_bag(x, rename=[('erltf::borrowed::', 'X::')])
         if bo == bb_:
             ctx.ok('C11.5-twin-helpers', h, 'differently laid out, same multiset of operations (callees, operators, constants, casts)', ctx.where(Hb))
+        elif any(x.b.get('n_inlined') for x in bodies_of_fn(P, 'erltf::term::' + h) + bodies_of_fn(P, 'erltf::borrowed::' + h)):
+            # one copy has been factored through a helper that did not exist on the reviewed tree (its body has been spliced in): the copies
+            # are no longer comparable operation by operation; each is decided on its own by the ordering rules (C12.3 digit walk, sign arms)
+            ctx.undecided('C11.5-twin-helpers', h, 'one copy goes through a new helper function; compared semantically by the ordering rules instead', ctx.where(Hb))
         elif any(k[0] == 'call' and str(k[1]).startswith('X::') and str(k[1]).rsplit('::', 1)[-1] not in HELPERS for k in ((bo - bb_) + (bb_ - bo))):
             # one copy has been factored through a helper of its own module the other copy does not have: the two can no longer be
             # compared operation by operation; each copy is still decided on its own by the ordering rules (C12.3 digit walk, sign arms)
